@@ -1,15 +1,18 @@
 """C22 Garbage collection never deletes reachable or staged objects (DESIGN.md §4.C22)."""
+import re
 from vf.core import Suite, coq_list, coq_bool
 from vf.gen import pick_weighted
 
 ID = "C22"
-THEOREMS = ["C22_walk_covers_live", "C22_prune_keeps_live", "C22_repack_keeps_live", "C22_walk_fuel_sufficient"]
+THEOREMS = ["C22_walk_covers_live", "C22_prune_keeps_live", "C22_repack_keeps_live", "C22_history_keeps_live", "C22_walk_fuel_sufficient"]
 MODEL_FILES = ["Gc.v"]
 MODELLED = ("object_walker.go: objectWalker.walkAllRefs, walkObjectTree (blob shortcut Mode|0o755 == Executable, shallow stop, promisor "
             "'missing' set), walkIndex, present; prune.go: Repository.Prune with DeleteObject as handler and OnlyObjectsOlderThan; "
-            "repository.go: RepackObjects / createNewObjectPack; dotgit.DeleteOldObjectPackAndIndex (age limit) — over an abstract "
+            "repository.go: RepackObjects / createNewObjectPack incl. the `h == nh` guard, PackWriter.save keeping a pack that already exists under "
+            "the new name, dotgit.DeleteOldObjectPackAndIndex (age limit) — packs carry a content-determined NAME (sorted object set + encoding "
+            "variant); histories of prune/repack rounds with new loose objects and staged files in between (gc_step/run_seq) — over an abstract "
             "object store (Model/Gc.v); spec: reachability from hash refs, detached HEAD and index entries (Spec/Reach.v); "
-            "not modelled: pack encoding / zlib / deltas / idx writing (a pack is the set of its objects: exercised, contents "
+            "not modelled: pack encoding / zlib / deltas / idx writing (a pack is its name and the set of its objects; how deltas change the bytes is the opaque variant: exercised, contents "
             "compared by digest and by git fsck), reference iteration order, alternates, reflogs, linked worktrees")
 TRUSTED = [
     "C-impl: Repository.Prune / RepackObjects on a scratch repository materialised from the abstract case with go-git's own writers vs Model/Gc.prune / repack (loose set, union of pack contents, error class)",
@@ -19,7 +22,9 @@ ASSUMPTIONS = ["well-formed repository content: tree entries with a file mode na
                "none about fuel: C22_walk_fuel_sufficient proves that the fuel used (number of reachable-by-name object ids + 1) never runs out"]
 RULE = ("case = abstract repository (blobs, trees, commits, tags with ids; placement loose/pack0/pack1/both/absent with age flags; refs, symbolic "
         "refs, HEAD symbolic/detached/unborn; shallow roots; index entries incl. staged-only, intent-to-add, gitlink; promisor packs) + "
-        "operation (prune/repack, age limit, ref deltas, exclusive access); non-trivial = some object is unreachable or staged-only or absent; "
+        "a history of 1..5 prune/repack rounds (age limit, ref deltas, pack.window 0 or 10, exclusive access) with new loose objects / newly "
+        "staged files in between, incl. repeated repacks of an unchanged repository and a first repack that reproduces a pack already on disk; "
+        "non-trivial = several rounds, or some object is unreachable or staged-only or absent; "
         "distinct by content")
 
 MODES = {"100644": 0o100644, "100755": 0o100755, "40000": 0o40000, "120000": 0o120000, "160000": 0o160000, "100664": 0o100664}
@@ -157,27 +162,88 @@ def gen_case(rng, bucket):
             index.append({"path": b"sub".hex(), "ref": absent_commit, "mode": "160000"})
     for o in objs:
         o.pop("_key", None)
+    # encoder configuration of the repository (pack.window) and of the packs that are already there
+    window = rng.choice([0, 0, 10])
+    for p in packs:
+        p["window"] = window
+    if bucket == "collide":
+        # pack p0 holds exactly what a repack will write, encoded the same way (window 0): the very first repack
+        # produces the name of a pack that is already on disk
+        window = 0
+        for p in packs:
+            p["window"] = 0
+        tmp = {"objects": objs, "refs": refs, "head": head, "shallow": shallow, "index": index}
+        for o in objs:
+            if o["at"]:
+                o["at"] = ["loose"]
+        for i in live_ids(tmp):
+            if objs[i]["at"]:
+                objs[i]["at"] = ["p0"] if rng.random() < 0.8 else ["p0", "loose"]
+    else:
+        # the bytes (hence the name) of a pack depend on more than its object set (object order, deltas), so whether a repack
+        # reproduces the name of a pack that is already there cannot be predicted: make sure that no pack of the initial state
+        # can coincide with the first repack (one dedicated dangling blob per pack).  Collisions between successive repacks
+        # do not change any observable (same object set), whichever way they go.
+        for p in packs:
+            if any(p["name"] in o["at"] for o in objs):
+                add({"k": "blob", "data": ("only in %s %d\n" % (p["name"], rng.randrange(10**6))).encode().hex(), "at": [p["name"]], "old": True})
     # two packs with the same object set would be one file (same pack name): keep them distinct
     if {i for i, o in enumerate(objs) if "p0" in o["at"]} == {i for i, o in enumerate(objs) if "p1" in o["at"]}:
         for o in objs:
             if "p1" in o["at"]:
                 o["at"].remove("p1")
+    # the history: garbage collection rounds, the repository gaining loose objects / staged files in between
+    def gcround(op=None):
+        return {"op": op or rng.choice(["prune", "repack"]), "threshold": rng.random() < 0.3, "refdeltas": rng.random() < 0.3}
+    if bucket in ("regc", "collide"):
+        rounds = [gcround("repack") for _ in range(rng.randrange(2, 5))]
+        if rng.random() < 0.3:
+            rounds.insert(rng.randrange(1, len(rounds)), gcround("prune"))
+    elif rng.random() < 0.45:
+        rounds = [gcround()]
+    else:
+        rounds = [gcround() for _ in range(rng.randrange(2, 5))]
+    if len(rounds) > 1 and bucket != "regc" and rng.random() < 0.6:
+        pos = rng.randrange(1, len(rounds))
+        extra = []
+        for _ in range(rng.randrange(1, 3)):
+            k = rng.random()
+            if k < 0.4:        # a new loose object nobody refers to
+                nb = add({"k": "blob", "data": ("later %d\n" % rng.randrange(10**6)).encode().hex(), "at": [], "old": False})
+                extra.append({"op": "add", "obj": nb})
+            elif k < 0.8:      # a new file is staged
+                nb = add({"k": "blob", "data": ("staged later %d\n" % rng.randrange(10**6)).encode().hex(), "at": [], "old": False})
+                extra += [{"op": "add", "obj": nb}, {"op": "stage", "obj": nb, "path": ("late%d" % nb).encode().hex()}]
+            else:              # a blob that is live (so: still there when this point of the history is reached) is staged once more
+                lv = live_ids({"objects": objs, "refs": refs, "head": head, "shallow": shallow, "index": index})
+                cand = [i for i, o in enumerate(objs) if o["k"] == "blob" and o["at"] and i in lv]
+                if cand:
+                    b = rng.choice(cand)
+                    extra.append({"op": "stage", "obj": b, "path": ("again%d" % b).encode().hex()})
+        rounds[pos:pos] = extra
     return {"bucket": bucket, "objects": objs, "packs": packs, "refs": refs, "head": head, "shallow": shallow, "index": index,
-            "op": rng.choice(["prune", "repack"]), "threshold": rng.random() < 0.35, "refdeltas": rng.random() < 0.3,
-            "exclusive": rng.random() < 0.25, "fsck": False}
+            "window": window, "rounds": rounds, "exclusive": rng.random() < 0.25, "fsck": False}
+
+
+def rounds_of(c):
+    return c.get("rounds") or [{"op": c["op"], "threshold": c.get("threshold", False), "refdeltas": c.get("refdeltas", False)}]
 
 
 def stored(o):
     return bool(o["at"])
 
 
-def live_ids(c):
+def live_ids(c, index=None, is_stored=None):
     """python transcription of Spec/Reach.live restricted to stored objects"""
     objs = c["objects"]
+    if index is None:
+        index = c["index"]
+    if is_stored is None:
+        is_stored = lambda i: stored(objs[i])
     roots = [r["ref"] for r in c["refs"] if "ref" in r]
     if "ref" in c["head"]:
         roots.append(c["head"]["ref"])
-    roots += [e["ref"] for e in c["index"] if e["mode"] != "160000"]
+    roots += [e["ref"] for e in index if e["mode"] != "160000"]
     seen, todo = set(), list(roots)
     while todo:
         h = todo.pop()
@@ -185,7 +251,7 @@ def live_ids(c):
             continue
         seen.add(h)
         o = objs[h]
-        if not stored(o):
+        if not is_stored(h):
             continue
         if o["k"] == "commit":
             todo.append(o["tree"])
@@ -203,15 +269,15 @@ class Main(Suite):
     go_cmd = "c22"
     coq_imports = "From GoGit Require Import Model.Gc."
     quick_n = 160
-    thorough_n = 1500
+    thorough_n = 700
     coq_chunk = 80
     impl_env = {"TMPDIR": "/dev/shm"} if __import__("os").path.isdir("/dev/shm") else None
 
     def gen(self, rng, n, tier):
         cases = []
-        nf = 8 if tier == "quick" else 150
+        nf = 8 if tier == "quick" else 60
         for i in range(n):
-            b = pick_weighted(rng, [(4, "mixed"), (2, "loose"), (3, "packed"), (2, "shallow"), (2, "promisor"), (2, "oddmode"), (1, "absent")])
+            b = pick_weighted(rng, [(4, "mixed"), (2, "loose"), (3, "packed"), (2, "shallow"), (2, "promisor"), (2, "oddmode"), (1, "absent"), (3, "regc"), (2, "collide")])
             c = gen_case(rng, b)
             c["fsck"] = i < nf
             cases.append(c)
@@ -229,19 +295,34 @@ class Main(Suite):
         objs = coq_list(["(%d%%N, %s)" % (i, obj(o)) for i, o in enumerate(c["objects"])])
         loose = coq_list(["(%d%%N, %s)" % (i, coq_bool(o.get("old", False))) for i, o in enumerate(c["objects"]) if "loose" in o["at"]])
         packs = []
-        for p in c["packs"]:
+        for k, p in enumerate(c["packs"]):
             ids = [i for i, o in enumerate(c["objects"]) if p["name"] in o["at"]]
             if ids:
-                packs.append("Build_pack %s %s %s" % (coq_bool(p.get("old", False)), coq_bool(p.get("promisor", False)), coq_list(["%d%%N" % i for i in ids])))
+                # the pack's name: its sorted object set and the encoding variant (0 = what a repack with window 0 writes)
+                variant = 0 if c.get("bucket") in ("collide", "witness-collide-existing") else k + 1
+                packs.append("Build_pack (%s, %d%%N) %s %s %s" % (coq_list(["%d%%N" % i for i in sorted(ids)]), variant, coq_bool(p.get("old", False)),
+                                                                 coq_bool(p.get("promisor", False)), coq_list(["%d%%N" % i for i in ids])))
         # DotGit.Refs(): HEAD first, then the loose refs in directory order (ReadDir sorts names per level)
         roots = ([c["head"]["ref"]] if "ref" in c["head"] else []) + [r["ref"] for r in sorted(c["refs"], key=lambda r: r["name"].split("/")) if "ref" in r]
         index = coq_list(["(%s, %d%%N)" % (coq_bool(e["mode"] == "160000"), e["ref"]) for e in c["index"]])
         repo = "(Build_repo %s %s %s %s %s %s)" % (objs, loose, coq_list(packs), coq_list(["%d%%N" % r for r in roots]),
                                                   coq_list(["%d%%N" % s for s in c["shallow"]]), index)
-        return "c22_run %s %s %s" % (coq_bool(c["op"] == "prune"), coq_bool(c.get("threshold", False)), repo)
+        ops = []
+        for r in rounds_of(c):
+            if r["op"] == "prune":
+                ops.append("GPrune %s" % coq_bool(r.get("threshold", False)))
+            elif r["op"] == "repack":
+                ops.append("GRepack %s 0%%N" % coq_bool(r.get("threshold", False)))
+            elif r["op"] == "add":
+                ops.append("GAddLoose %d%%N" % r["obj"])
+            else:
+                ops.append("GStage %d%%N" % r["obj"])
+        return "c22_run %s %s" % (coq_list(ops), repo)
 
     def nontrivial(self, c):
         live = live_ids(c)
+        if len(rounds_of(c)) > 1:
+            return True
         return any(stored(o) and i not in live for i, o in enumerate(c["objects"])) or any(not stored(o) for o in c["objects"]) or bool(c["index"])
 
     def show(self, c):
@@ -251,6 +332,9 @@ class Main(Suite):
         return d
 
     def oracle(self, ctx, cases, impl, model):
+        """after EVERY garbage collection round: each object that was live and readable before the round is readable with the
+        same type and content afterwards (read through a freshly opened storage); on a sample, git fsck --strict reports no
+        new missing object / broken link after any round"""
         fails = {}
         for c in cases:
             r = impl.get(c["id"])
@@ -259,22 +343,33 @@ class Main(Suite):
             if r.get("panic"):
                 continue
             ex = r.get("extra") or {}
-            before, after = ex.get("before") or {}, ex.get("after") or {}
-            lost = []
-            for i in sorted(live_ids(c)):
-                b = before.get(str(i))
-                if b is not None and after.get(str(i)) != b:
-                    lost.append((i, c["objects"][i]["k"], b, after.get(str(i))))
-            if lost:
-                i, k, b, a = lost[0]
-                staged_only = [e["ref"] for e in c["index"]]
-                fails[c["id"]] = "%s: live %s %d (%s) was readable (%s) and is %s afterwards%s" % (
-                    c["op"], k, i, ex.get("hashes", {}).get(str(i), "?"), b, a or "gone", " [index entry]" if i in staged_only else "")
-                continue
-            if c.get("fsck"):
-                new = [l for l in (ex.get("fsck_after") or []) if l not in (ex.get("fsck_before") or []) and ("missing" in l or "broken link" in l)]
-                if new:
-                    fails[c["id"]] = "%s: git fsck newly reports %r" % (c["op"], new[:3])
+            rex = ex.get("rounds") or []
+            index = list(c["index"])
+            j = 0
+            for k, rd in enumerate(rounds_of(c)):
+                if rd["op"] == "stage":
+                    index.append({"ref": rd["obj"], "mode": "100644"})
+                    continue
+                if rd["op"] == "add":
+                    continue
+                if j >= len(rex):
+                    break
+                before, after = rex[j].get("before") or {}, rex[j].get("after") or {}
+                live = live_ids(c, index, lambda i: str(i) in before)
+                lost = [(i, c["objects"][i]["k"], before[str(i)], after.get(str(i))) for i in sorted(live)
+                        if str(i) in before and after.get(str(i)) != before[str(i)]]
+                if lost:
+                    i, kind, b, a = lost[0]
+                    fails[c["id"]] = "round %d (%s, operation %d of the history): live %s %d (%s) was readable (%s) and is %s afterwards (%d live objects lost)%s" % (
+                        j + 1, rd["op"], k + 1, kind, i, ex.get("hashes", {}).get(str(i), "?"), b, a or "gone", len(lost),
+                        " [index entry]" if all(x[0] in [e["ref"] for e in index] for x in lost) else "")
+                    break
+                if c.get("fsck"):
+                    new = [l for l in (rex[j].get("fsck_after") or []) if l not in (rex[j].get("fsck_before") or []) and ("missing" in l or "broken link" in l)]
+                    if new:
+                        fails[c["id"]] = "round %d (%s): git fsck --strict newly reports %r" % (j + 1, rd["op"], new[:3])
+                        break
+                j += 1
         return fails
 
     def finding_class(self, c, reason, reply):
@@ -282,12 +377,20 @@ class Main(Suite):
 
     def extra(self, ctx, cases, impl, model):
         n = sum(1 for c in cases if c.get("fsck") and c["id"] in impl)
-        outcomes = {}
+        outcomes, lens = {}, {}
+        same_name = 0
         for c in cases:
-            o = (impl.get(c["id"]) or {}).get("out", "?")
-            k = c["op"] + ":" + ("ok" if o.startswith("( ok") else o)
-            outcomes[k] = outcomes.get(k, 0) + 1
-        return {"git_fsck_cases": n, "outcomes": outcomes}
+            for rx in ((impl.get(c["id"]) or {}).get("extra") or {}).get("rounds") or []:
+                if rx.get("op") == "repack" and not rx.get("error") and rx.get("packs_after") and set(rx["packs_after"]) <= set(rx.get("packs_before") or []):
+                    same_name += 1
+            rs = [r for r in rounds_of(c) if r["op"] in ("prune", "repack")]
+            lens[len(rs)] = lens.get(len(rs), 0) + 1
+            outs = re.findall(r"\( ok|\( err \w+", (impl.get(c["id"]) or {}).get("out", ""))
+            for r, o in zip(rs, outs):
+                k = r["op"] + ":" + ("ok" if o == "( ok" else o[2:])
+                outcomes[k] = outcomes.get(k, 0) + 1
+        return {"git_fsck_cases": n, "outcomes": outcomes, "gc_rounds_per_history": lens,
+                "repack_rounds_reproducing_an_existing_pack_name": same_name}
 
 
 SUITES = [Main()]
